@@ -34,6 +34,14 @@ def observe(cfg):
     steps, fails = [], []
     kind = cfg["kind"]
     for i in range(cfg["iters"]):
+        if cfg.get("reinit_at") is not None and i == cfg["reinit_at"]:
+            # what a second jinns.solve call does with the generator the first one returned: init_rar again
+            # (the step number, the stores and the probability masks must be kept; only the period counter is re-armed)
+            b_pre = snapshot(kind, g)
+            g, st, sf = R.init_rar(g)
+            b_post = snapshot(kind, g)
+            if b_pre != b_post:
+                fails.append(f"iteration {i}: init_rar on a generator that has already been refined changed its step number, stores or masks")
         b0 = snapshot(kind, g)
         g, _ = g.get_batch()
         b1 = snapshot(kind, g)
@@ -148,6 +156,8 @@ def generate(tier, seed, casedir, variant):
                 else:                # ... and the other way round
                     cfg["start"], cfg["every"], cfg["iters"] = 0, 1, 8
                     cfg["n"] = cfg["n_start"] + 2 * cfg["sel_x"]; cfg["nt"] = cfg["nt_start"] + 8 * cfg["sel_t"]
+            if j % 3 == 1:
+                cfg["reinit_at"] = rng.randint(2, 4)
             nruns += 1
             try:
                 steps, fails = observe(cfg)
@@ -169,7 +179,7 @@ def generate(tier, seed, casedir, variant):
                 cid += 1
     write_cases(casedir, "C17", "R_C17", variant, cases, chunk=40)
     return dict(meta=meta, oracle_violations=viol, evaluations=len(cases), distinct_nontrivial=len(nontrivial),
-                rule="random generators of the three kinds (1-D and 2-D, equal and unequal time/space starts, runs in which the time store or the space store fills first and refinement has to stop) stepped through trigger_rar with a batch draw before every iteration; one case per refinement step that happened (hook record + stores/masks before and after); all are non-trivial; distinct by (run, iteration)",
+                rule="random generators of the three kinds (1-D and 2-D, equal and unequal time/space starts, runs in which the time store or the space store fills first and refinement has to stop) stepped through trigger_rar with a batch draw before every iteration (a third of the runs calls init_rar again in the middle, as a resumed training does); one case per refinement step that happened (hook record + stores/masks before and after); all are non-trivial; distinct by (run, iteration)",
                 samples=samples, distribution=dict(dist, runs=nruns), oracle_checks=len(cases) + nruns)
 
 
